@@ -536,7 +536,7 @@ class RoundTripMonitor:
 
 
 def pkdpk_inst(name, B, H, fields, swap, data_values=None, hdr_values=None, garbage="hold", min_len=1,
-               max_len=8, alphabet=True):
+               max_len=8, alphabet=True, idle_garbage=True):
     dw = 8 * B
     hs = HdrSpec(fields, H, swap)
     pd = stream.EndpointDescription([("data", dw)], hs.header.get_layout())
@@ -557,6 +557,11 @@ def pkdpk_inst(name, B, H, fields, swap, data_values=None, hdr_values=None, garb
     if alphabet:
         for v in (0, 1):
             for r in (0, 1):
+                if not v and not idle_garbage:
+                    # the lines of an invalid sink only show the two extreme beats
+                    letters.append((0, data_values[0], 0) + tuple(hdr_values[0]) + (r,))
+                    letters.append((0, data_values[-1], 1) + tuple(hdr_values[-1]) + (r,))
+                    continue
                 for d in data_values:
                     for l in (0, 1):
                         for hv in hdr_values:
